@@ -531,10 +531,20 @@ namespace occa {
       dtype.enum_ = dtypeEnum_t::fromJson(j).clone();
     } else if (type == "struct") {
       dtype.struct_ = dtypeStruct_t::fromJson(j).clone();
+      // The JSON format doesn't store the size, recompute it the way addField does
+      const int fieldCount = dtype.struct_->fieldCount();
+      for (int i = 0; i < fieldCount; ++i) {
+        dtype.bytes_ += (*dtype.struct_)[i].bytes();
+      }
     } else if (type == "tuple") {
       dtype.tuple_ = dtypeTuple_t::fromJson(j).clone();
+      dtype.bytes_ = dtype.tuple_->dtype.bytes() * dtype.tuple_->size;
     } else if (type == "union") {
       dtype.union_ = dtypeUnion_t::fromJson(j).clone();
+      const int fieldCount = dtype.union_->fieldCount();
+      for (int i = 0; i < fieldCount; ++i) {
+        dtype.bytes_ += (*dtype.union_)[i].bytes();
+      }
     } else if (type == "custom") {
       dtype.bytes_ = (int) j["bytes"];
     } else {
